@@ -1,31 +1,138 @@
-(** C03 -- property theorems only. *)
+(** C03 -- property theorems only.  Model: coq/C03/MulgridIO.v ([write], [read], [canon],
+    [wf_g]) over the regenerated tables Gen.GenTables / Gen.GenMulgrid. *)
 From Coq Require Import Ascii String List Bool Arith ZArith NArith.
 From PTBase Require Import Exn PyStr PyNum PyVal Fmt FixedFormat.
 From Gen Require Import GenTables GenMulgrid.
-From P Require Import Flt Lines MulgridIO RoundTrip.
+From P Require Import Flt Lines MulgridIO RoundTrip Header Idem Fields Natural Canon Feet.
 Import ListNotations.
 
-(** a written file splits back into its lines (text mode, universal newlines) *)
-Theorem split_written_lines : forall ls, forallb line_ok ls = true -> split_lines (unl (file_of_lines ls)) = map add_nl ls.
-Proof. intros ls H. rewrite unl_file by exact H. apply split_lines_file. exact H. Qed.
-Print Assumptions split_written_lines.
+(** ** finite obligations over the regenerated tables *)
+(** every section title the writers emit selects, through its first [keyword_len] characters,
+    the matching reader in the dispatch dictionary of [mulgrid.read] *)
+Theorem section_titles_dispatch :
+  title_ok "write_nodes" "read_nodes" && title_ok "write_columns" "read_columns" &&
+  title_ok "write_connections" "read_connections" && title_ok "write_layers" "read_layers" &&
+  title_ok "write_surface" "read_surface" && title_ok "write_wells" "read_wells" = true.
+Proof. exact titles_dispatch. Qed.
+Print Assumptions section_titles_dispatch.
+(** order and guards of the section writers in [mulgrid.write] are those of the model *)
+Theorem write_sequence_modelled : write_sequence =
+  [("always", "write_header"); ("always", "write_nodes"); ("always", "write_columns"); ("always", "write_connections");
+   ("always", "write_layers"); ("not_default_surface", "write_surface"); ("has_wells", "write_wells"); ("always", "final")]%string.
+Proof. exact write_sequence_is_modelled. Qed.
+Print Assumptions write_sequence_modelled.
+(** the header record of the format table is the one the model reads and writes *)
+Theorem header_record_modelled : rec_of "header" = Ok (hnames, hspecs).
+Proof. exact rec_header. Qed.
+Print Assumptions header_record_modelled.
 
-(** one record: if every field passes its read-back check, the writer returns a line that
-    parses back to the expected values whatever follows it on the line *)
+(** ** lines and records *)
+Theorem split_written_lines : forall ls, forallb line_ok ls = true -> split_lines (unl (file_of_lines ls)) = map add_nl ls.
+Proof. exact split_written. Qed.
+Print Assumptions split_written_lines.
+(** one record of any layout: if every field passes its read-back check, the line the
+    writer returns parses back to the expected values whatever follows it on the line *)
 Theorem record_round_trip : forall specs vals, fields_ok specs vals = true ->
   exists l, write_values specs vals = Ok l /\ line_ok l = true /\
             forall rest, parse_string default_rf specs (l ++ rest)%list = expected_list specs vals.
 Proof. exact record_parses_back. Qed.
 Print Assumptions record_round_trip.
+(** a value that fits its field (name no wider than the field, non-negative integer, any
+    finite double in %w.pf with p >= 1, None) passes the read-back check: float()/int() of
+    the formatted text return the printed decimal *)
+Theorem field_fits_reads_back : forall f v, fits_field f v = true -> readback_ok f v = true.
+Proof. exact fits_reads_back. Qed.
+Print Assumptions field_fits_reads_back.
+(** arithmetic room: a double whose rounding to p decimals is below 10^(p+q) prints in at
+    most q + 1 + p characters (so |x| <= 9999999.99 fits '10.2f', sign included) *)
+Theorem real_field_room : forall p m e q, (1 <= p)%Z -> (0 <= m)%Z -> (1 <= q)%Z ->
+  (rhe (fst (num_den m e) * pow10 p) (snd (num_den m e)) < pow10 (p + q))%Z ->
+  (length (fmt_f_body p m e) <= Z.to_nat (q + 1 + p))%nat.
+Proof. exact fmt_f_body_length. Qed.
+Print Assumptions real_field_room.
 
+(** ** the round trip *)
 (** the writer succeeds on every well-formed geometry *)
 Theorem mulgrid_write_total : forall g, wf g = true ->
   str_eqb (h_type (canon_header (g_hdr g))) (s2l supported_type) = true -> exists b, write g = Ok b.
 Proof. exact wf_write_ok. Qed.
 Print Assumptions mulgrid_write_total.
-
-(** THE round trip, for every well-formed geometry (any number of nodes, columns,
-    connections, layers, surfaces, wells; any header options) *)
+(** THE round trip, for every well-formed geometry: any number of nodes, columns,
+    connections, layers, surfaces, wells; any header options *)
 Theorem mulgrid_read_write : forall g b, wf g = true -> write g = Ok b -> read b = Ok (canon g).
 Proof. exact read_write_roundtrip. Qed.
 Print Assumptions mulgrid_read_write.
+(** ... in particular whenever every record value FITS its field (no run of the reader in
+    the hypothesis) *)
+Theorem fits_implies_wf : forall g, nwf g = true -> wf g = true.
+Proof. exact nwf_wf. Qed.
+Print Assumptions fits_implies_wf.
+Theorem mulgrid_read_write_fits : forall g b, nwf g = true -> write g = Ok b -> read b = Ok (canon g).
+Proof. exact read_write_roundtrip_fits. Qed.
+Print Assumptions mulgrid_read_write_fits.
+(** what [canon] keeps: order, counts, node lists, connections, optional parts *)
+Theorem canon_keeps_structure : forall g, str_eqb (h_type (canon_header (g_hdr g))) (s2l supported_type) = true ->
+  let L := len_or_0 colname_lengths (h_conv (canon_header (g_hdr g))) in
+  let LL := len_or_0 layername_lengths (h_conv (canon_header (g_hdr g))) in
+  map n_name (g_nodes (canon g)) = map (fun n => canon_name L (n_name n)) (g_nodes g) /\
+  map c_name (g_cols (canon g)) = map (fun c => canon_name L (c_name c)) (g_cols g) /\
+  map c_nodes (g_cols (canon g)) = map (fun c => map (canon_name L) (c_nodes c)) (g_cols g) /\
+  map (fun c => is_some (c_centre c)) (g_cols (canon g)) = map (fun c => is_some (c_centre c)) (g_cols g) /\
+  map (fun c => is_some (c_surf c)) (g_cols (canon g)) = map (fun c => is_some (c_surf c)) (g_cols g) /\
+  g_cons (canon g) = map (canon_con L) (g_cons g) /\
+  map l_name (g_lays (canon g)) = map (fun l => canon_name LL (l_name l)) (g_lays g) /\
+  map w_name (g_wells (canon g)) = map (fun w => canon_wname (w_name w)) (g_wells g) /\
+  map (fun w => length (w_pos w)) (g_wells (canon g)) = map (fun w => length (w_pos w)) (g_wells g).
+Proof. exact canon_shape. Qed.
+Print Assumptions canon_keeps_structure.
+(** right-justified names of the convention's length come back unchanged *)
+Theorem canonical_names_kept : forall g, str_eqb (h_type (canon_header (g_hdr g))) (s2l supported_type) = true ->
+  names_canonical g = true ->
+  map n_name (g_nodes (canon g)) = map n_name (g_nodes g) /\ map c_name (g_cols (canon g)) = map c_name (g_cols g) /\
+  map c_nodes (g_cols (canon g)) = map c_nodes (g_cols g) /\ g_cons (canon g) = g_cons g /\
+  map l_name (g_lays (canon g)) = map l_name (g_lays g).
+Proof. exact canon_keeps_names. Qed.
+Print Assumptions canonical_names_kept.
+
+(** ** header options *)
+Theorem header_round_trip : forall h, hdr_ok h = true ->
+  canon_header h = let p := hdr_pre h in
+    mkhdr (h_type p) (h_conv h) (h_atm h) (h_vol p) (h_con p) (if is_blank (h_unit p) then [] else h_unit p)
+          (h_gdcx p) (h_gdcy p) (h_cntype h) (h_angle p) (h_bo h).
+Proof. exact canon_header_form. Qed.
+Print Assumptions header_round_trip.
+Theorem header_options_kept : forall h, hdr_ok h = true ->
+  let h' := canon_header h in
+  h_conv h' = h_conv h /\ h_atm h' = h_atm h /\ h_cntype h' = h_cntype h /\ h_bo h' = h_bo h /\
+  (h_gdcx h' = None <-> h_gdcx h = None) /\ (h_gdcy h' = None <-> h_gdcy h = None).
+Proof. exact header_options_preserved. Qed.
+Print Assumptions header_options_kept.
+Theorem unit_type_kept : forall h sc, hdr_ok h = true -> unit_scale_of (h_unit h) = Ok sc -> h_unit (canon_header h) = h_unit h.
+Proof. exact unit_type_preserved. Qed.
+Print Assumptions unit_type_kept.
+Theorem grid_type_kept : forall h, hdr_ok h = true -> h_type h = s2l supported_type -> h_type (canon_header h) = h_type h.
+Proof. exact grid_type_preserved. Qed.
+Print Assumptions grid_type_kept.
+
+(** ** second write; feet *)
+(** byte for byte: PARTIAL -- the hypothesis [idem_ok] asks, field by field, that the re-read
+    value formats to the same text (the 15-digit argument is not proved; the driver evaluates
+    [idem_ok] on every generated geometry); proved here: from field level to the whole file *)
+Theorem mulgrid_write_idem_partial : forall g, wf g = true -> idem_ok g = true -> write (canon g) = write g.
+Proof. exact write_canon_idem. Qed.
+Print Assumptions mulgrid_write_idem_partial.
+Theorem feet_roundtrip : forall g b, wf g = true -> h_unit (g_hdr g) = feet ->
+  str_eqb (h_type (canon_header (g_hdr g))) (s2l supported_type) = true -> write g = Ok b ->
+  (exists hl, b = file_of_lines (hl :: body_lines feet_scale g)) /\
+  read b = Ok (canon g) /\
+  h_unit (g_hdr (canon g)) = feet /\
+  scale_or_one (h_unit (g_hdr g)) = feet_scale /\ scale_or_one (h_unit (g_hdr (canon g))) = feet_scale.
+Proof. exact feet_round_trip. Qed.
+Print Assumptions feet_roundtrip.
+
+(** ** the hypotheses are satisfiable: a concrete geometry in feet with a specified centre,
+    a raised surface, a layer centred on 0.0 and a well *)
+Theorem hypotheses_satisfiable : wf ex_geo = true /\ nwf ex_geo = true /\ idem_ok ex_geo = true /\
+  h_unit (g_hdr ex_geo) = feet /\ str_eqb (h_type (canon_header (g_hdr ex_geo))) (s2l supported_type) = true.
+Proof. exact (conj ex_geo_wf (conj ex_geo_nwf (conj ex_geo_idem ex_geo_feet))). Qed.
+Print Assumptions hypotheses_satisfiable.
